@@ -15,14 +15,14 @@ type Info struct {
 	N      int
 	Succs  [][]int
 	Preds  [][]int
-	Live   []bool  // reachable from entry via allowed edges
+	Live   []bool   // reachable from entry via allowed edges
 	PostD  [][]bool // PostD[a][b]: a post-dominates b (w.r.t. a virtual exit joining all Return/Panic blocks)
-	ipdom  []int   // immediate post-dominator (-1: virtual exit)
+	ipdom  []int    // immediate post-dominator (-1: virtual exit)
 	RPO    []int
 	rpoIdx []int
 	Back   map[[2]int]bool // back edges (target dominates source)
-	LoopOf []int          // innermost loop header containing block, -1 if none
-	Loops  map[int][]int  // header -> blocks in natural loop
+	LoopOf []int           // innermost loop header containing block, -1 if none
+	Loops  map[int][]int   // header -> blocks in natural loop
 }
 
 // New computes the facts for fn. allow may be nil (all edges).
